@@ -208,6 +208,8 @@ func checkC11(r *core.Result) {
 	checkReflectTypeNil(r, prog, root)
 	// D9: Marshal / Unmarshal / Size probes
 	checkProbeForwarders(r, prog, root)
+	// D13: the size pass precedes the table-driven v1 marshaler
+	checkSizeBeforeV1Marshal(r, prog, root)
 	// D8: Clone / Equal / MarshalText hand back the owning runtime's own result
 	checkForwarders(r, prog, root, "D8", "Clone", "Equal", "MarshalText")
 	// D4 uses the assertions of *all* dispatch files (extensions.go too)
@@ -769,4 +771,78 @@ func isResetOnly(t types.Type) bool {
 	}
 	sig := it.Method(0).Type().(*types.Signature)
 	return sig.Params().Len() == 0 && sig.Results().Len() == 0
+}
+
+// checkSizeBeforeV1Marshal (D13): the table-driven marshalers behind XXX_Marshal write the length prefix of every
+// nested message from the size cache that the XXX_Size pass fills; the call pm.XXX_Marshal(…) is therefore only the
+// runtime's own Marshal if pm.XXX_Size() ran before it in the same call, on every path (a statement of an enclosing
+// block that precedes the call).
+func checkSizeBeforeV1Marshal(r *core.Result, prog *core.Program, root *packages.Package) {
+	info := root.TypesInfo
+	n := 0
+	for _, f := range core.Funcs(root) {
+		if f.Decl == nil || f.Decl.Body == nil {
+			continue
+		}
+		var stack []ast.Node
+		ast.Inspect(f.Decl.Body, func(nd ast.Node) bool {
+			if nd == nil {
+				stack = stack[:len(stack)-1]
+				return true
+			}
+			stack = append(stack, nd)
+			call, ok := nd.(*ast.CallExpr)
+			if !ok {
+				return true
+			}
+			se, ok := call.Fun.(*ast.SelectorExpr)
+			if !ok || se.Sel.Name != "XXX_Marshal" {
+				return true
+			}
+			recv, ok := se.X.(*ast.Ident)
+			if !ok {
+				return true
+			}
+			obj := info.Uses[recv]
+			n++
+			sized := false
+			// walk the enclosing blocks from the inside out
+			for i := len(stack) - 1; i > 0 && !sized; i-- {
+				var list []ast.Stmt
+				switch b := stack[i-1].(type) {
+				case *ast.BlockStmt:
+					list = b.List
+				case *ast.CaseClause:
+					list = b.Body
+				default:
+					continue
+				}
+				for _, s := range list {
+					if s.End() > stack[i].Pos() {
+						break
+					}
+					var e ast.Expr
+					switch s := s.(type) {
+					case *ast.ExprStmt:
+						e = s.X
+					case *ast.AssignStmt:
+						if len(s.Rhs) == 1 {
+							e = s.Rhs[0]
+						}
+					}
+					if c, ok := e.(*ast.CallExpr); ok {
+						if se2, ok := c.Fun.(*ast.SelectorExpr); ok && se2.Sel.Name == "XXX_Size" {
+							if id, ok := se2.X.(*ast.Ident); ok && info.Uses[id] == obj && obj != nil {
+								sized = true
+							}
+						}
+					}
+				}
+			}
+			r.Ob("D13", f.Name+" :: "+types.ExprString(se)+" runs after "+recv.Name+".XXX_Size()", prog.Pos(call.Pos()), sized,
+				"the table-driven XXX_Marshal of a v1 / Gogo message writes nested length prefixes from the size cache that XXX_Size fills: without a preceding "+recv.Name+".XXX_Size() in the same call the prefixes of nested messages are stale or unset and the bytes do not decode with the owning runtime")
+			return true
+		})
+	}
+	r.Ob("D13", "XXX_Marshal call sites found", "marshal.go", n >= 1, "no call of XXX_Marshal found in the root package (anchor moved)")
 }
